@@ -266,7 +266,6 @@ Proof.
   replace (len HH + len B - len (HH ++ B)) with 0 by (rewrite len_app; lia). reflexivity.
 Qed.
 
-Definition pair_ok (p : bytes * bytes) : Prop := len (fst p) <= VARINT_MAX /\ len (snd p) <= VARINT_MAX.
 
 Lemma nv_write_all_some ps : Forall pair_ok ps ->
   exists e, nv_write_all ps = Some e.
